@@ -326,6 +326,7 @@ def record_traces(n, seed):
     import petl as etl
     rng = random.Random(seed)
     traces = []
+    gc.freeze()      # nfiles() collects garbage after every step: do not let it rescan the (large, live) heap each time
     for _ in range(n):
         N = rng.randrange(0, 7)
         B = rng.randrange(1, 6)
